@@ -1,5 +1,333 @@
 import BstreamVerif.Model.Joining
+/-!
+# C13 — Stream bounds and filters: stop block inclusive and final, filters only remove
+
+The stream wraps the user handler as  step filter → stop-block handler → user handler  (`Sim.deliver`), resolves
+a negative start against the hub head (`resolveStart`) and rejects inconsistent options before any source is
+created (`runStream`). The theorems are about these functions for all inputs; how the raw event sequence arises
+(files, join, live) is the subject of C07.
+-/
 namespace BstreamVerif.Props.C13
-open BstreamVerif BstreamVerif.Joining
+open BstreamVerif BstreamVerif.Joining BstreamVerif.HubBurst
+
+/-- the handler chain as a list transformer: what reaches the user handler from a raw event sequence,
+    and whether the stop block was reached -/
+def chain (cfg : SCfg) : List Event → List Event × Bool
+  | [] => ([], false)
+  | e :: es =>
+    if !passesFilter cfg e.step then chain cfg es
+    else if cfg.stop != 0 && e.blk.num > cfg.stop then ([], true)
+    else if cfg.stop != 0 && e.blk.num == cfg.stop then ([e], true)
+    else let r := chain cfg es; (e :: r.1, r.2)
+
+/-- nothing above the stop block is ever delivered -/
+theorem nothing_above_stop (cfg : SCfg) (hs : cfg.stop ≠ 0) (evs : List Event) :
+    ∀ e ∈ (chain cfg evs).1, e.blk.num ≤ cfg.stop := by
+  induction evs with
+  | nil => simp [chain]
+  | cons x xs ih =>
+    unfold chain
+    have hs' : (cfg.stop != 0) = true := by simp [hs]
+    split
+    · exact ih
+    · simp only [hs', Bool.true_and]
+      split
+      · simp
+      · split
+        · rename_i h2; intro e he; simp only [List.mem_singleton] at he; subst he
+          simp only [beq_iff_eq] at h2; omega
+        · rename_i h1 h2
+          intro e he
+          simp only [List.mem_cons] at he
+          rcases he with rfl | he
+          · simp only [decide_eq_true_eq] at h1; omega
+          · exact ih e he
+
+/-- the stop block itself is delivered: if the first filter-passing event at or above the stop height is for the
+    stop block, it is the last delivered event and the stream ends with stop-block-reached -/
+theorem stop_block_delivered (cfg : SCfg) (pre post : List Event) (e : Event)
+    (hpre : ∀ x ∈ pre, passesFilter cfg x.step = false ∨ x.blk.num < cfg.stop)
+    (hf : passesFilter cfg e.step = true) (he : e.blk.num = cfg.stop) (hs : cfg.stop ≠ 0) :
+    (chain cfg (pre ++ e :: post)).2 = true ∧ (chain cfg (pre ++ e :: post)).1.getLast? = some e := by
+  have hs' : (cfg.stop != 0) = true := by simp [hs]
+  induction pre with
+  | nil =>
+    simp only [List.nil_append, chain, hf, Bool.not_true, Bool.false_eq_true, if_false, hs', Bool.true_and]
+    have h1 : ¬ (e.blk.num > cfg.stop) := by omega
+    simp [h1, he]
+  | cons x xs ih =>
+    have ih' := ih (fun y hy => hpre y (by simp [hy]))
+    simp only [List.cons_append, chain]
+    rcases hpre x (by simp) with hx | hx
+    · simp only [hx, Bool.not_false, if_true]; exact ih'
+    · by_cases hfx : passesFilter cfg x.step = true
+      · have h1 : ¬ (x.blk.num > cfg.stop) := by omega
+        have h2 : ¬ (x.blk.num = cfg.stop) := by omega
+        simp only [hfx, Bool.not_true, Bool.false_eq_true, if_false, hs', Bool.true_and, decide_eq_true_eq, h1, beq_iff_eq, h2]
+        refine ⟨ih'.1, ?_⟩
+        obtain ⟨_, hl⟩ := ih'
+        cases hc : (chain cfg (xs ++ e :: post)).1 with
+        | nil => rw [hc] at hl; simp at hl
+        | cons a as => rw [hc] at hl; simp [List.getLast?_cons_cons, hl]
+      · simp only [Bool.not_eq_true] at hfx
+        simp only [hfx, Bool.not_false, if_true]; exact ih'
+
+/-- the step filter only removes events: what is delivered is a sublist of the raw events, in unchanged order,
+    and every delivered event passes the filter -/
+theorem filter_only_removes (cfg : SCfg) (evs : List Event) :
+    (chain cfg evs).1.Sublist evs ∧ ∀ e ∈ (chain cfg evs).1, passesFilter cfg e.step = true := by
+  induction evs with
+  | nil => simp [chain]
+  | cons x xs ih =>
+    unfold chain
+    split
+    · exact ⟨List.Sublist.cons _ ih.1, ih.2⟩
+    · rename_i hf
+      have hf : passesFilter cfg x.step = true := by simpa using hf
+      split
+      · simp
+      · split
+        · exact ⟨List.Sublist.cons_cons _ (List.nil_sublist _), by intro e he; simp only [List.mem_singleton] at he; subst he; exact hf⟩
+        · refine ⟨List.Sublist.cons_cons _ ih.1, ?_⟩
+          intro e he
+          simp only [List.mem_cons] at he
+          rcases he with rfl | he
+          · exact hf
+          · exact ih.2 e he
+
+/-- without a stop block nothing that passes the filter is lost -/
+theorem no_stop_keeps_all (cfg : SCfg) (hs : cfg.stop = 0) (evs : List Event) :
+    (chain cfg evs).1 = evs.filter (fun e => passesFilter cfg e.step) := by
+  induction evs with
+  | nil => rfl
+  | cons x xs ih =>
+    unfold chain
+    by_cases hf : passesFilter cfg x.step = true
+    · simp [hf, hs, ih]
+    · simp only [Bool.not_eq_true] at hf
+      simp [hf, ih]
+
+/-- which steps each filter passes -/
+theorem default_filter (cfg : SCfg) (h1 : cfg.finalOnly = false) (h2 : cfg.customFilter = none) (s : Step) :
+    passesFilter cfg s = (s == .new || s == .newIrreversible || s == .undo) := by
+  cases s <;> simp [passesFilter, h1, h2, Step.matchesMask, Step.code] <;> decide
+
+theorem final_only_filter (cfg : SCfg) (h1 : cfg.finalOnly = true) (s : Step) :
+    passesFilter cfg s = (s == .irreversible || s == .newIrreversible) := by
+  cases s <;> simp [passesFilter, h1, Step.matchesMask, Step.code] <;> decide
+
+theorem custom_filter (cfg : SCfg) (h1 : cfg.finalOnly = false) (m : Nat) (h2 : cfg.customFilter = some m) (s : Step) :
+    passesFilter cfg s = s.matchesMask m := by
+  simp [passesFilter, h1, h2]
+
+/-- negative start: head minus the distance, saturating at 0, never below the first streamable block -/
+theorem negative_start (start : Int) (hneg : start < 0) (head fsb : Nat) :
+    resolveStart start head fsb = max fsb (head - start.natAbs) := by
+  unfold resolveStart
+  simp only [hneg, if_true]
+  by_cases h : head < start.natAbs
+  · simp only [h, if_true]
+    have : head - start.natAbs = 0 := by omega
+    rw [this]; by_cases h0 : 0 < fsb <;> simp [h0] <;> omega
+  · simp only [h, if_false]
+    by_cases h0 : head - start.natAbs < fsb <;> simp [h0] <;> omega
+
+theorem nonneg_start (start : Int) (hpos : 0 ≤ start) (head fsb : Nat) :
+    resolveStart start head fsb = max fsb start.toNat := by
+  unfold resolveStart
+  have : ¬ (start < 0) := by omega
+  simp only [this, if_false]
+  by_cases h0 : start.toNat < fsb <;> simp [h0] <;> omega
+
+/-- a start after the stop block is rejected as an invalid argument, before any source is created -/
+theorem start_after_stop_rejected (cfg : SCfg) (hubCfg : Forkable.Config) (bundles forks pushes)
+    (h1 : cfg.stop > 0) (h2 : absStart cfg hubCfg pushes > cfg.stop) :
+    runStream cfg hubCfg bundles forks pushes = ([], .invalidArg) := by
+  unfold runStream startSim
+  simp [h1, h2]
+
+/-- final-blocks-only refuses a cursor that is not on a final block -/
+theorem final_only_refuses_non_final_cursor (cfg : SCfg) (hubCfg : Forkable.Config) (bundles forks pushes) (c : Cur)
+    (hf : cfg.finalOnly = true) (hc : cfg.cursor = some c) (hn : isOnFinalBlock c = false) :
+    runStream cfg hubCfg bundles forks pushes = ([], .invalidArg) := by
+  have : cursorRejected cfg = true := by simp [cursorRejected, hf, hc, hn]
+  have hs : startSim cfg hubCfg bundles forks pushes = none := by
+    unfold startSim; simp [this]
+  unfold runStream
+  rw [hs]
+
+/-! Non-vacuity -/
+example : resolveStart (-5) 20 2 = 15 ∧ resolveStart (-50) 20 2 = 2 ∧ resolveStart 1 20 2 = 2 := by decide
+
+end BstreamVerif.Props.C13
+
+/-! ## The same facts for whole runs of the stream model (`runStream`): an invariant of the simulation loop -/
+namespace BstreamVerif.Props.C13
+open BstreamVerif BstreamVerif.Joining BstreamVerif.HubBurst
+
+/-- invariant of the simulation state: everything delivered passed the filter; with a stop block nothing is above
+    it, only the last delivery can be at it, and while the stream has not ended everything is below it -/
+structure Inv (cfg : SCfg) (m : Sim) : Prop where
+  passes : ∀ e ∈ m.delivered, passesFilter cfg e.step = true
+  le     : cfg.stop ≠ 0 → ∀ e ∈ m.delivered, e.blk.num ≤ cfg.stop
+  init   : cfg.stop ≠ 0 → ∀ e ∈ m.delivered.dropLast, e.blk.num < cfg.stop
+  open_  : cfg.stop ≠ 0 → m.ended = none → ∀ e ∈ m.delivered, e.blk.num < cfg.stop
+
+theorem push_out (m : Sim) (b : Blk) : (m.push b).delivered = m.delivered ∧ (m.push b).ended = m.ended := by
+  unfold Sim.push; exact ⟨rfl, rfl⟩
+
+theorem foldl_push_out (ps : List Push) (m : Sim) :
+    (ps.foldl (fun m p => m.push p.blk) m).delivered = m.delivered ∧
+    (ps.foldl (fun m p => m.push p.blk) m).ended = m.ended := by
+  induction ps generalizing m with
+  | nil => exact ⟨rfl, rfl⟩
+  | cons p ps ih =>
+    simp only [List.foldl_cons]
+    have h := ih (m.push p.blk)
+    have h2 := push_out m p.blk
+    exact ⟨h.1.trans h2.1, h.2.trans h2.2⟩
+
+theorem applyPushes_out (m : Sim) (w : When) :
+    (m.applyPushes w).delivered = m.delivered ∧ (m.applyPushes w).ended = m.ended := by
+  unfold Sim.applyPushes
+  exact foldl_push_out _ _
+
+theorem inv_of_out {cfg : SCfg} {m m' : Sim} (h : Inv cfg m) (hd : m'.delivered = m.delivered)
+    (he : m'.ended = m.ended ∨ m'.ended.isSome) : Inv cfg m' := by
+  refine ⟨by rw [hd]; exact h.passes, by rw [hd]; exact h.le, by rw [hd]; exact h.init, ?_⟩
+  intro hs hn
+  rw [hd]
+  rcases he with he | he
+  · exact h.open_ hs (he ▸ hn)
+  · rw [hn] at he; simp at he
+
+theorem deliver_inv (cfg : SCfg) (m : Sim) (e : Event) (h : Inv cfg m) (hopen : m.ended = none) :
+    Inv cfg (Sim.deliver cfg m e) := by
+  unfold Sim.deliver
+  split
+  · exact h
+  · rename_i hf
+    have hf : passesFilter cfg e.step = true := by simpa using hf
+    split
+    · exact inv_of_out h rfl (Or.inr rfl)
+    · rename_i hgt
+      -- the event is appended
+      have key : ∀ m' : Sim, m'.delivered = m.delivered ++ [e] →
+          (m'.ended = none → cfg.stop ≠ 0 → e.blk.num < cfg.stop) → Inv cfg m' := by
+        intro m' hd hlast
+        refine ⟨?_, ?_, ?_, ?_⟩
+        · intro x hx; rw [hd] at hx
+          simp only [List.mem_append, List.mem_singleton] at hx
+          rcases hx with hx | rfl
+          · exact h.passes x hx
+          · exact hf
+        · intro hs x hx; rw [hd] at hx
+          simp only [List.mem_append, List.mem_singleton] at hx
+          rcases hx with hx | rfl
+          · exact h.le hs x hx
+          · have : (cfg.stop != 0) = true := by simp [hs]
+            simp only [this, Bool.true_and, decide_eq_true_eq] at hgt; omega
+        · intro hs x hx; rw [hd] at hx
+          simp only [List.dropLast_concat] at hx
+          exact h.open_ hs hopen x hx
+        · intro hs hn x hx; rw [hd] at hx
+          simp only [List.mem_append, List.mem_singleton] at hx
+          rcases hx with hx | rfl
+          · exact h.open_ hs hopen x hx
+          · exact hlast hn hs
+      split
+      · apply key
+        · exact (applyPushes_out _ _).1
+        · intro hn; simp at hn
+      · rename_i hne
+        apply key
+        · exact (applyPushes_out _ _).1
+        · intro _ hs
+          have : (cfg.stop != 0) = true := by simp [hs]
+          simp only [this, Bool.true_and, decide_eq_true_eq, beq_iff_eq] at hgt hne
+          omega
+
+theorem step1_inv (cfg : SCfg) (m : Sim) (h : Inv cfg m) (hopen : m.ended = none) : Inv cfg (step1 cfg m) := by
+  unfold step1
+  split
+  · split
+    · exact deliver_inv cfg _ _ (inv_of_out h rfl (Or.inl rfl)) hopen
+    · split
+      · exact inv_of_out h (push_out _ _).1 (Or.inl (push_out _ _).2)
+      · exact inv_of_out h rfl (Or.inr rfl)
+  · split
+    · simp only
+      split
+      · split
+        · exact inv_of_out h rfl (Or.inl rfl)
+        · exact deliver_inv cfg _ _ (inv_of_out h rfl (Or.inl rfl)) hopen
+      · exact deliver_inv cfg _ _ (inv_of_out h rfl (Or.inl rfl)) hopen
+    · split
+      · exact inv_of_out h rfl (Or.inr rfl)
+      · exact inv_of_out h rfl (Or.inr rfl)
+
+theorem simLoop_inv (cfg : SCfg) (fuel : Nat) (m : Sim) (h : Inv cfg m) : Inv cfg (simLoop cfg fuel m) := by
+  induction fuel generalizing m with
+  | zero => exact h
+  | succ n ih =>
+    unfold simLoop
+    split
+    · exact h
+    · rename_i hn
+      have : m.ended = none := by cases hm : m.ended <;> simp_all
+      exact ih _ (step1_inv cfg m h this)
+
+theorem startBody_delivered (cfg : SCfg) (m0 : Sim) (abs : Nat) (bundles forks) :
+    (startBody cfg m0 abs bundles forks).delivered = m0.delivered := by
+  unfold startBody
+  split
+  · rfl
+  · split <;> rfl
+
+theorem startSim_delivered (cfg : SCfg) (hubCfg : Forkable.Config) (bundles forks pushes) (m : Sim)
+    (h : startSim cfg hubCfg bundles forks pushes = some m) : m.delivered = [] := by
+  unfold startSim at h
+  split at h
+  · cases h
+  · split at h
+    · cases h
+    · injection h with h
+      subst h
+      rw [startBody_delivered]
+      exact (applyPushes_out _ _).1
+
+/-- **C13 for every run of the stream model**: whatever the files, the hub, the schedule of hub pushes, the cursor
+    and the options, every delivered event passed the step filter; with a stop block no delivered block is above
+    it and a delivery at the stop height is the last one. -/
+theorem run_respects_bounds (cfg : SCfg) (hubCfg : Forkable.Config) (bundles forks pushes) :
+    (∀ e ∈ (runStream cfg hubCfg bundles forks pushes).1, passesFilter cfg e.step = true) ∧
+    (cfg.stop ≠ 0 → (∀ e ∈ (runStream cfg hubCfg bundles forks pushes).1, e.blk.num ≤ cfg.stop) ∧
+      (∀ e ∈ (runStream cfg hubCfg bundles forks pushes).1.dropLast, e.blk.num < cfg.stop)) := by
+  unfold runStream
+  split
+  · simp
+  · rename_i m1 hm
+    have hd := startSim_delivered _ _ _ _ _ _ hm
+    have hI : Inv cfg m1 := ⟨by simp [hd], by simp [hd], by simp [hd], by simp [hd]⟩
+    have := simLoop_inv cfg (4 * (pushes.length + (bundles.flatMap (·.blocks)).length + 10) + 50) m1 hI
+    exact ⟨this.passes, fun hs => ⟨this.le hs, this.init hs⟩⟩
+
+/-- a run that delivered a block at the stop height delivered it last, everything before it is below -/
+theorem stop_block_is_last (cfg : SCfg) (hubCfg : Forkable.Config) (bundles forks pushes) (e : Event)
+    (hs : cfg.stop ≠ 0) (he : e ∈ (runStream cfg hubCfg bundles forks pushes).1) (hn : e.blk.num = cfg.stop) :
+    ∃ pre last, (runStream cfg hubCfg bundles forks pushes).1 = pre ++ [last] ∧ last.blk.num = cfg.stop ∧
+      ∀ x ∈ pre, x.blk.num < cfg.stop := by
+  have h := (run_respects_bounds cfg hubCfg bundles forks pushes).2 hs
+  generalize (runStream cfg hubCfg bundles forks pushes).1 = d at *
+  rcases List.eq_nil_or_concat d with hd | ⟨pre, x, hd⟩
+  · subst hd; simp at he
+  · rw [List.concat_eq_append] at hd
+    subst hd
+    have hpre : ∀ y ∈ pre, y.blk.num < cfg.stop := fun y hy => h.2 y (by simpa using hy)
+    refine ⟨pre, x, rfl, ?_, hpre⟩
+    simp only [List.mem_append, List.mem_singleton] at he
+    rcases he with he | rfl
+    · have := hpre e he; omega
+    · exact hn
 
 end BstreamVerif.Props.C13
